@@ -27,10 +27,15 @@ void runRange(const Scn &scn, Out &out)
             else r = Range(QString::fromLatin1(unhx(p[4])), p[5].toLongLong());
             out.obs << report(r);
         } else if (p[0] == "s") {
-            Range r(QString::fromLatin1(unhx(p[1])), p[2].toLongLong());
+            Range r(QString::fromUtf8(unhx(p[1])), p[2].toLongLong());
             out.obs << report(r);
         } else if (p[0] == "c") {
             Range r0(p[1].toLongLong(), p[2].toLongLong(), p[3].toLongLong());
+            Range r(r0, p[4].toLongLong());
+            out.obs << report(r);
+        } else if (p[0] == "qc") {                      // the source was asked about before it is copied with a new size
+            Range r0(p[1].toLongLong(), p[2].toLongLong(), p[3].toLongLong());
+            (void) report(r0);
             Range r(r0, p[4].toLongLong());
             out.obs << report(r);
         } else if (p[0] == "d") {
